@@ -497,10 +497,8 @@ async fn run_glue(env0: Arc<Env>, listener: &mut net::tcp::Listener, c: &Value) 
     let (net, _runner) = Network::new(cfg, engine.manager.clone(), Some(setup.epoch), con_send, net_recv)
         .expect("Network::new");
     let glue = Arc::new(Glue(net));
-    let engine_task = tokio::spawn(async move {
-        let ctx = ctx::root();
-        let _ = engine.runner.run(&ctx).await;
-    });
+    // the engine's background runner is not needed by the admission path and is not started
+    let _engine_runner = engine.runner;
 
     let pools = |glue: &Glue| -> Value {
         let mut gi: Vec<i64> = glue
@@ -587,20 +585,17 @@ async fn run_glue(env0: Arc<Env>, listener: &mut net::tcp::Listener, c: &Value) 
                             tokio::task::yield_now().await;
                         }
                         live = !h.is_finished();
-                        if live {
-                            keep = Some(a);
-                        }
                     }
                 }
-                if !live {
-                    drop(keep.take());
+                if live {
+                    keep = Some(a);
+                    handles.push(Some(h));
+                } else {
+                    drop(a); // closes the adversary's end
                     if tokio::time::timeout(std::time::Duration::from_secs(8), &mut h).await.is_err() {
-                        stuck = true;
-                        h.abort();
+                        stuck = true; // (the task is left behind: scope tasks must not be aborted)
                     }
                     handles.push(None);
-                } else {
-                    handles.push(Some(h));
                 }
                 advs.push(keep);
                 out.push(json!({"ev": "conn", "c": cix, "responded": responded, "live": live,
@@ -613,7 +608,6 @@ async fn run_glue(env0: Arc<Env>, listener: &mut net::tcp::Listener, c: &Value) 
                     if let Some(mut h) = handles[cix].take() {
                         if tokio::time::timeout(std::time::Duration::from_secs(8), &mut h).await.is_err() {
                             stuck = true;
-                            h.abort();
                         }
                     }
                 }
@@ -624,10 +618,15 @@ async fn run_glue(env0: Arc<Env>, listener: &mut net::tcp::Listener, c: &Value) 
             break;
         }
     }
-    for h in handles.iter().flatten() {
-        h.abort();
+    // end of case: close every remaining connection and let the node's tasks finish
+    advs.clear();
+    for h in handles.iter_mut() {
+        if let Some(mut h) = h.take() {
+            if tokio::time::timeout(std::time::Duration::from_secs(8), &mut h).await.is_err() {
+                stuck = true;
+            }
+        }
     }
-    engine_task.abort();
     json!({ "events": out, "stuck": stuck })
 }
 
